@@ -97,6 +97,23 @@ class Scenario:
         out.pair("detach value", d.data, x.data)
         return out
 
+    def s_clone_detach_independent_under_no_grad(self, env):
+        import synapgrad
+        out = E.Outcome()
+        Tn = T()
+        x = Tn(env.arr("x", (3,)), requires_grad=True)
+        with synapgrad.no_grad():
+            c = x.clone()
+            d = x.detach()
+            y = (x * 2.0).detach()
+        out.fact("clone under no_grad has its own storage", not np.shares_memory(ar.unwrap(c.data), ar.unwrap(x.data)))
+        out.fact("detach under no_grad has its own storage", not np.shares_memory(ar.unwrap(d.data), ar.unwrap(x.data)))
+        snap = snapshot(d.data)
+        x.data -= 1.0                   # a documented in-place update of the source (what optimizer.step does)
+        out.pair("a snapshot taken with detach() under no_grad does not follow the source", d.data, snap)
+        out.pair("clone taken under no_grad does not follow the source", c.data, snap)
+        return out
+
     def s_loss_target_untouched(self, env):
         out = E.Outcome()
         Tn = T()
@@ -118,7 +135,7 @@ class Scenario:
 
 
 SCENARIOS = ["leaf_root_then_accumulate", "seed_reused_twice", "views_of_one_array", "tensor_used_by_several_ops",
-             "clone_detach_independent", "loss_target_untouched"]
+             "clone_detach_independent", "clone_detach_independent_under_no_grad", "loss_target_untouched"]
 
 
 def enumerate_specs(tier):
